@@ -110,6 +110,9 @@ def src(s):
         return "Mapping(%s, {%s})" % (src(s[1]), ", ".join("%r: %r" % (o, v) for o, v in s[2]))
     if k == "hex":
         return "Hex(%s)" % src(s[1])
+    if k == "adapt":           # user-level adapters over an integer sub-construct: ("adapt", sub, "inc" | "xor" | "cls")
+        return {"inc": "ExprAdapter(%s, decoder=obj_ + 1, encoder=obj_ - 1)", "xor": "ExprSymmetricAdapter(%s, obj_ ^ 0x55)",
+                "cls": "ADAPT_NEG(%s)"}[s[2]] % src(s[1])
     if k == "oneof":
         return "OneOf(%s, %r)" % (src(s[1]), list(s[2]))
     if k == "noneof":
@@ -201,6 +204,18 @@ def namespace(C):
     for n in dir(m):
         if not n.startswith("__"):
             ns[n] = getattr(m, n)
+    neg = getattr(m, "_verif_adapt_neg", None)
+    if neg is None:
+        class ADAPT_NEG(m.Adapter):
+            """a user-defined Adapter subclass (negation), as an application would write it"""
+
+            def _decode(self, obj, context, path):
+                return -obj
+
+            def _encode(self, obj, context, path):
+                return -obj
+        neg = m._verif_adapt_neg = ADAPT_NEG
+    ns["ADAPT_NEG"] = neg
     return ns
 
 
@@ -214,6 +229,14 @@ def mk(C, source, extra=None):
         from symx.loader import wrap_instance_tables
         wrap_instance_tables(d)
     return d
+
+
+def _xor55(x):
+    from .ref import bit_of
+    w = 8
+    while (1 << w) <= max(abs(getattr(x, "lo", 0)), abs(getattr(x, "hi", 255))):
+        w += 8
+    return sum(((bit_of(x, i) + ((0x55 >> i) & 1)) % 2) * 2 ** i for i in range(w))
 
 
 def warmup(d, n, patterns=None):
@@ -291,6 +314,9 @@ def domain(ctx, s, name, tier="quick", wide=False, env=None):
         return ctx.choice(name + ".which", objs)
     if k in ("hex", "default", "oneof", "noneof", "byteswapped", "bitsswapped", "bitwise", "bytewise"):
         return domain(ctx, s[1], name, tier, wide, env)
+    if k == "adapt":
+        x = domain(ctx, s[1], name, tier, wide, env)
+        return {"inc": lambda: x + 1, "xor": lambda: x ^ 0x55, "cls": lambda: -x}[s[2]]()
     if k == "xor":
         return domain(ctx, s[2], name, tier, wide, env)
     if k == "struct":
@@ -416,7 +442,7 @@ def walk(s):
                     yield from walk(y[1])
 
 
-_KINDS = set("""bytesintctx bitsintctx pstring cstring pascal greedystring fmt float bytesint bitsint varint zigzag flag pass bytes bytesctx greedybytes const constv computed tell
+_KINDS = set("""adapt bytesintctx bitsintctx pstring cstring pascal greedystring fmt float bytesint bitsint varint zigzag flag pass bytes bytesctx greedybytes const constv computed tell
 terminated error enum flagsenum mapping hex oneof noneof rebuildlen default struct seq focusedseq array arrayctx greedyrange
 prefixedarray repeatuntil prefixed fixedsized nullterminated nullstripped padded aligned if ifthenelse switch select optional
 bitwise bytewise byteswapped bitsswapped xor rawcopy peek pointer raw""".split())
@@ -467,7 +493,7 @@ def is_greedy(s):
         return is_greedy(s[3])
     if k in ("prefixedarray",):
         return is_greedy(s[2])
-    if k in ("enum", "flagsenum", "mapping", "hex", "oneof", "noneof", "default", "rebuildlen", "rawcopy", "bitsswapped"):
+    if k in ("enum", "flagsenum", "mapping", "hex", "oneof", "noneof", "default", "rebuildlen", "rawcopy", "bitsswapped", "adapt"):
         return is_greedy(s[1])
     if k in ("padded", "aligned"):
         return is_greedy(s[2])
